@@ -32,6 +32,21 @@ class Conjugate: # TODO: Subclass from Sampler once updated
                raise ValueError("Conjugate sampler only works implicit regularized Gaussian likelihood with nonnegativity constraints")
         
         self.target = target
+        self._check_conjugate_structure()
+
+    def _check_conjugate_structure(self):
+        """ The Gamma update in `step` is the conditional distribution only if the precision of the likelihood is
+        proportional to the conjugate parameter (e.g. cov=lambda s: 1/s or prec=lambda s: s) and nothing else depends
+        on it. This is verified by evaluating the likelihood distribution at a few values of the parameter. """
+        dist = self.target.likelihood.distribution
+        if callable(dist.mean):
+            raise ValueError("Conjugate sampler requires that the mean of the likelihood does not depend on the conjugate parameter")
+        v = np.linspace(1, 2, len(self.target.likelihood.data))
+        unit_norm2 = np.linalg.norm(dist(np.array([1.0])).sqrtprec @ v)**2
+        for t in [2.0, 5.0]:
+            norm2 = np.linalg.norm(dist(np.array([t])).sqrtprec @ v)**2
+            if not np.isclose(norm2, t*unit_norm2, rtol=1e-8):
+                raise ValueError("Conjugate sampler requires that the precision of the likelihood is proportional to the conjugate parameter, e.g. cov=lambda s: 1/s or prec=lambda s: s")
 
     def step(self, x=None):
         # Extract variables
